@@ -1,0 +1,204 @@
+//go:build verif
+
+package main
+
+import (
+	"context"
+	"encoding/json"
+	"io"
+	"os"
+	"path/filepath"
+	"sort"
+	"strings"
+
+	"github.com/ludo-technologies/pyscn/domain"
+	"github.com/ludo-technologies/pyscn/internal/analyzer"
+	"github.com/ludo-technologies/pyscn/service"
+)
+
+func init() {
+	// imports_x: like "imports" (service.AnalyzeDependencies on the Python files below a directory), but the
+	// analysis options of the request (include_stdlib, include_third_party, follow_relative, exclude patterns)
+	// can be set, and the whole DependencyAnalysisResult is dumped: edges, module metrics with risk level and
+	// dependency lists, root/leaf modules, coupling analysis, circular dependencies with the suggestions.
+	// "project": analyse with ModuleAnalyzer.AnalyzeProject + DetectCircularDependencies the way
+	// `pyscn check --select deps` does (the same options, project root = dir) and return its cycles too.
+	register("imports_x", func(raw json.RawMessage) (interface{}, error) {
+		var req struct {
+			Dir               string   `json:"dir"`
+			Files             []string `json:"files"`
+			IncludeStdLib     *bool    `json:"include_stdlib"`
+			IncludeThirdParty *bool    `json:"include_third_party"`
+			FollowRelative    *bool    `json:"follow_relative"`
+			Exclude           []string `json:"exclude"`
+			Project           bool     `json:"project"`
+		}
+		if err := json.Unmarshal(raw, &req); err != nil {
+			return nil, err
+		}
+		var files []string
+		if len(req.Files) > 0 {
+			for _, f := range req.Files {
+				files = append(files, filepath.Join(req.Dir, f))
+			}
+		} else {
+			_ = filepath.Walk(req.Dir, func(p string, info os.FileInfo, err error) error {
+				if err == nil && !info.IsDir() && strings.HasSuffix(p, ".py") {
+					files = append(files, p)
+				}
+				return nil
+			})
+			sort.Strings(files)
+		}
+		excl := req.Exclude
+		if excl == nil {
+			excl = []string{}
+		}
+		sreq := domain.SystemAnalysisRequest{
+			Paths:             files,
+			IncludePatterns:   []string{},
+			ExcludePatterns:   excl,
+			OutputFormat:      domain.OutputFormatJSON,
+			OutputWriter:      io.Discard,
+			IncludeStdLib:     req.IncludeStdLib,
+			IncludeThirdParty: req.IncludeThirdParty,
+			FollowRelative:    req.FollowRelative,
+		}
+		res, err := service.NewSystemAnalysisService().AnalyzeDependencies(context.Background(), sreq)
+		if err != nil {
+			return nil, err
+		}
+		type mm struct {
+			Module       string   `json:"module"`
+			Ca           int      `json:"ca"`
+			Ce           int      `json:"ce"`
+			Instability  float64  `json:"instability"`
+			Abstractness float64  `json:"abstractness"`
+			Distance     float64  `json:"distance"`
+			Public       int      `json:"public"`
+			Risk         string   `json:"risk"`
+			Direct       []string `json:"direct"`
+			Transitive   []string `json:"transitive"`
+			Dependents   []string `json:"dependents"`
+			IsPackage    bool     `json:"is_package"`
+			File         string   `json:"file"`
+		}
+		edges := [][2]string{}
+		modules := []string{}
+		for from, row := range res.DependencyMatrix {
+			modules = append(modules, from)
+			for to, ok := range row {
+				if ok {
+					edges = append(edges, [2]string{from, to})
+				}
+			}
+		}
+		sort.Strings(modules)
+		sort.Slice(edges, func(i, j int) bool {
+			if edges[i][0] != edges[j][0] {
+				return edges[i][0] < edges[j][0]
+			}
+			return edges[i][1] < edges[j][1]
+		})
+		metrics := []mm{}
+		for _, name := range modules {
+			if m := res.ModuleMetrics[name]; m != nil {
+				rel, _ := filepath.Rel(req.Dir, m.FilePath)
+				metrics = append(metrics, mm{name, m.AfferentCoupling, m.EfferentCoupling, m.Instability,
+					m.Abstractness, m.Distance, len(m.PublicInterface), string(m.RiskLevel),
+					nn(m.DirectDependencies), nn(m.TransitiveDependencies), nn(m.Dependents), m.IsPackage, rel})
+			}
+		}
+		out := map[string]interface{}{
+			"modules":            modules,
+			"edges":              edges,
+			"metrics":            metrics,
+			"max_depth":          res.MaxDepth,
+			"total_modules":      res.TotalModules,
+			"total_dependencies": res.TotalDependencies,
+			"roots":              nn(res.RootModules),
+			"leaves":             nn(res.LeafModules),
+		}
+		if ca := res.CouplingAnalysis; ca != nil {
+			out["coupling"] = map[string]interface{}{
+				"average_coupling":        ca.AverageCoupling,
+				"average_instability":     ca.AverageInstability,
+				"main_sequence_deviation": ca.MainSequenceDeviation,
+				"highly_coupled":          nn(ca.HighlyCoupledModules),
+				"zone_of_pain":            nn(ca.ZoneOfPain),
+			}
+		}
+		if cd := res.CircularDependencies; cd != nil {
+			type cyc struct {
+				Modules  []string `json:"modules"`
+				Size     int      `json:"size"`
+				Severity string   `json:"severity"`
+				Chains   int      `json:"chains"`
+			}
+			cycles := []cyc{}
+			for _, c := range cd.CircularDependencies {
+				cycles = append(cycles, cyc{c.Modules, c.Size, string(c.Severity), len(c.Dependencies)})
+			}
+			out["circular"] = map[string]interface{}{
+				"has":           cd.HasCircularDependencies,
+				"total_cycles":  cd.TotalCycles,
+				"total_modules": cd.TotalModulesInCycles,
+				"cycles":        cycles,
+				"suggestions":   nn(cd.CycleBreakingSuggestions),
+				"core":          nn(cd.CoreInfrastructure),
+			}
+		}
+		chains := [][]string{}
+		for _, c := range res.LongestChains {
+			chains = append(chains, c.Path)
+		}
+		out["longest_chains"] = chains
+
+		if req.Project {
+			// cmd/pyscn/check.go checkCircularDependencies
+			opts := &analyzer.ModuleAnalysisOptions{
+				ProjectRoot:       req.Dir,
+				IncludePatterns:   []string{"**/*.py"},
+				ExcludePatterns:   []string{"__pycache__", "*.pyc", ".venv", "venv"},
+				IncludeStdLib:     false,
+				IncludeThirdParty: false,
+				FollowRelative:    true,
+			}
+			ma, err := analyzer.NewModuleAnalyzer(opts)
+			if err != nil {
+				return nil, err
+			}
+			g, err := ma.AnalyzeProject()
+			if err != nil {
+				out["project_error"] = err.Error()
+			} else {
+				r := analyzer.DetectCircularDependencies(g)
+				pc := [][]string{}
+				for _, c := range r.CircularDependencies {
+					pc = append(pc, c.Modules)
+				}
+				pe := [][2]string{}
+				for _, e := range g.Edges {
+					pe = append(pe, [2]string{e.From, e.To})
+				}
+				sort.Slice(pe, func(i, j int) bool {
+					if pe[i][0] != pe[j][0] {
+						return pe[i][0] < pe[j][0]
+					}
+					return pe[i][1] < pe[j][1]
+				})
+				out["project_cycles"] = pc
+				out["project_edges"] = pe
+				out["project_modules"] = g.GetModuleNames()
+			}
+		}
+		return out, nil
+	})
+}
+
+func nn(s []string) []string {
+	if s == nil {
+		return []string{}
+	}
+	return s
+}
